@@ -15,7 +15,8 @@ func init() {
 		"(R7) register-before-send: the pending entry is stored before the request leaves; "+
 		"(R8) release on all exits: every path from the registration to a return executes delete(resCh, id) with the same key; "+
 		"(R9) the wait is one blocking select over exactly the registered channel, a timer on the configured timeout and ctx.Done(); the retry loop is bounded by messageMaxRetries and repeats only on errTimeout; "+
-		"(R10) correlation: the response carries the request's ID (respond(…, req.ID, …) → responseMsg.ID), the lookup key on arrival is the decoded response's ID, and register/delete use the request's ID; both IDs are codec field 1.",
+		"(R10) correlation: the response carries the request's ID (respond(…, req.ID, …) → responseMsg.ID), the lookup key on arrival is the decoded response's ID, and register/delete use the request's ID; both IDs are codec field 1; "+
+		"(R11) the channel registered for a request is created by make() in that call (a reused channel could still hold a reply to an earlier request).",
 		runC17)
 }
 
@@ -62,18 +63,85 @@ func runC17(c *Ctx) {
 
 	// ---- R8
 	keyT := ff.Term(reg.Key)
+	// what counts as the release: delete(resCh, key) here; a call (or defer) of a local closure
+	// or of a MessageProtocol method that always executes delete(resCh, key) for the same key
+	releasesInCallee := func(cc *ssa.CallCommon) bool {
+		var g *ssa.Function
+		subst := map[string]string{}
+		switch v := cc.Value.(type) {
+		case *ssa.MakeClosure:
+			g, _ = v.Fn.(*ssa.Function)
+			if g != nil {
+				for i, b := range v.Bindings {
+					if i >= len(g.FreeVars) {
+						continue
+					}
+					name := g.FreeVars[i].Name()
+					if a, ok := b.(*ssa.Alloc); ok {
+						if st := uniqueStoreTo(a); st != nil {
+							subst["*free(alloc:"+name+")"] = ff.Term(st.Val).String()
+							continue
+						}
+					}
+					subst["free("+ff.Term(b).String()+")"] = ff.Term(b).String()
+				}
+			}
+		case *ssa.Function:
+			g = v
+			if !strings.HasPrefix(FuncKey(g), "pkg/p2p.(*MessageProtocol).") {
+				return false
+			}
+			for i, a := range cc.Args {
+				subst[fmt.Sprintf("p%d", i)] = ff.Term(a).String()
+			}
+		}
+		if g == nil || len(g.Blocks) == 0 {
+			return false
+		}
+		gf := factsOf(g)
+		return alwaysCalls(g, func(dc *ssa.CallCommon) bool {
+			if CalleeName(dc) != "builtin:delete" || !gf.Term(dc.Args[0]).Any(IsField(mp, "resCh").F) {
+				return false
+			}
+			k := gf.Term(dc.Args[1]).String()
+			for from, to := range subst {
+				k = strings.ReplaceAll(k, from, to)
+			}
+			return k == keyT.String()
+		})
+	}
+	nRel := 0
 	isDel := func(in ssa.Instruction) bool {
 		for _, d := range dels {
 			if d == in {
 				return ff.Term(d.Common().Args[1]).String() == keyT.String()
 			}
 		}
+		switch x := in.(type) {
+		case *ssa.Call:
+			return releasesInCallee(x.Common())
+		case *ssa.Defer:
+			return releasesInCallee(x.Common())
+		}
 		return false
+	}
+	for _, b := range send.Blocks {
+		for _, in := range b.Instrs {
+			if isDel(in) {
+				nRel++
+			}
+		}
 	}
 	path := reachesReturnAvoiding(reg, isDel, nil)
 	c.Require("C17.R8 release-on-all-exits", FuncKey(send)+": resCh[id]=ch ⇒ delete(resCh,id)", p.InstrPos(reg),
-		"every path from the registration to a return deletes the entry (same key)", path == nil, pathStr(path)+retOfPath(p, path))
-	c.MinInstances("C17.R8 delete sites", len(dels), 1)
+		"every path from the registration to a return deletes the entry (same key), directly or through a closure/method that always does", path == nil, pathStr(path)+retOfPath(p, path))
+	c.MinInstances("C17.R8 delete sites", nRel, 1)
+	// ---- R11 the registered channel is made for this request: nothing delivered for an
+	// earlier request can be buffered in it
+	{
+		_, fresh := stripConv(reg.Value).(*ssa.MakeChan)
+		c.Require("C17.R11 channel-per-request", FuncKey(send)+": registered channel", p.InstrPos(reg), "the channel stored in resCh is created by make() in this call (never reused across requests)", fresh, "registered value: "+ff.Term(reg.Value).String())
+	}
 	// deletes happen under the table's lock: covered by R4 field guard
 
 	// ---- R9 select shape
@@ -97,7 +165,7 @@ func runC17(c *Ctx) {
 				if st.Dir != 2 { // types.RecvOnly
 					ok = false
 				}
-				if stripConv(st.Chan) == regCh {
+				if stripConv(st.Chan) == regCh || t.String() == ff.Term(reg.Value).String() {
 					hasCh = true
 				}
 				if t.Op == "call" && t.Sym == "time.After" && IsField(mp, "timeout").Match(t.Args[0]) {
